@@ -650,6 +650,60 @@ func (x *Exec) evalCall(env *SpecEnv, c *ast.CallExpr) specVal {
 				return env.fail("bad type %s", exprString(c.Args[1]))
 			}
 			return specVal{term: fmt.Sprintf("(and ((_ is ibox) %s) (= (itag %s) %d))", v.term, v.term, vc.typeTag(ty)), typ: tBool}
+		case "G_ret":
+			// $ret(Name, i): the i-th result of the call to the function or method called Name in
+			// the function under verification (Name__2: the second such call in block order). Only
+			// meaningful on paths that executed the call: guard it with the branch condition.
+			nm, ok := c.Args[0].(*ast.Ident)
+			if !ok || env.fr == nil || len(c.Args) != 2 {
+				return env.fail("$ret needs (Name, i) inside a function")
+			}
+			iv := x.evalSpec(env, c.Args[1])
+			idx, err := strconv.Atoi(iv.term)
+			if err != nil {
+				return env.fail("$ret: constant index needed")
+			}
+			want, base := 1, nm.Name
+			if i := strings.LastIndex(base, "__"); i > 0 {
+				if k, err := strconv.Atoi(base[i+2:]); err == nil {
+					base, want = base[:i], k
+				}
+			}
+			n := 0
+			for _, b := range env.fr.fn.Blocks {
+				for _, ins := range b.Instrs {
+					call, ok := ins.(*ssa.Call)
+					if !ok {
+						continue
+					}
+					cn := ""
+					if call.Call.IsInvoke() {
+						cn = call.Call.Method.Name()
+					} else if f := call.Call.StaticCallee(); f != nil {
+						cn = f.Name()
+					}
+					if cn != base {
+						continue
+					}
+					n++
+					if n != want {
+						continue
+					}
+					if tup, ok := call.Type().(*types.Tuple); ok {
+						ts, done := env.fr.tuples[call]
+						if !done || idx >= len(ts) {
+							return env.fail("$ret(%s): call not executed on any path yet", nm.Name)
+						}
+						return specVal{term: ts[idx], typ: tup.At(idx).Type()}
+					}
+					v, done := env.fr.vals[call]
+					if !done || idx != 0 {
+						return env.fail("$ret(%s): call not executed on any path yet", nm.Name)
+					}
+					return specVal{term: v, typ: call.Type()}
+				}
+			}
+			return env.fail("$ret: no call of %s in %s", nm.Name, env.fr.fn.Name())
 		case "G_unbox":
 			v := x.evalSpec(env, c.Args[0])
 			ty := x.resolveTypeExpr(c.Args[1], env.pkg)
@@ -893,6 +947,21 @@ func (x *Exec) callByContractSpec(fr *Frame, st *State, fc *FuncContract, fn *ss
 		if i < len(args) {
 			env.names[p.Name()] = specVal{term: args[i], typ: argTypes[i]}
 		}
+	}
+	// header names (functions without body have no parameter names) and "recv"
+	hn := fc.Params
+	if len(hn)+1 == len(args) {
+		hn = append([]string{"recv"}, hn...)
+	}
+	if len(hn) == len(args) {
+		for i, n := range hn {
+			if n != "" && n != "_" {
+				env.names[n] = specVal{term: args[i], typ: argTypes[i]}
+			}
+		}
+	}
+	if len(args) > 0 {
+		env.names["recv"] = specVal{term: args[0], typ: argTypes[0]}
 	}
 	pre := st.clone()
 	env.old = pre
